@@ -445,7 +445,7 @@ def m_strategy(it, fn, args, kwargs, node):
 def m_sleep_fn(it, fn, args, kwargs, node):
     g, w = G(it), W(it)
     fk = it.frames[0].func.key if it.frames and it.frames[0].func else "runner"
-    ctx, s = args[0], args[1]
+    ctx, s = args[0], it.force_num(args[1])
     trace(it, "sleep_fn", fn, ctx, s)
     it.path.oblige(f"{fk}/C16/handler-consulted-once-per-retry", g["handler_calls_attempt"] == 0, prop="C16")
     sf = to_sfloat(s)
@@ -472,7 +472,7 @@ def m_sleep_fn(it, fn, args, kwargs, node):
 def m_before_sleep(it, fn, args, kwargs, node):
     g, w = G(it), W(it)
     fk = it.frames[0].func.key if it.frames and it.frames[0].func else "runner"
-    ctx, s = args[0], args[1]
+    ctx, s = args[0], it.force_num(args[1])
     trace(it, "before_sleep", fn, ctx, s)
     sf = to_sfloat(s)
     it.path.oblige(f"{fk}/C16/before_sleep-receives-computed-delay", z3.And(sf.k == FIN, sf.v == g["last_retry_sleep"]), prop="C16")
@@ -508,7 +508,7 @@ class AwaitableV:
 
 def m_sleeper(it, fn, args, kwargs, node):
     g, w = G(it), W(it)
-    s = args[0]
+    s = it.force_num(args[0])  # time.sleep(None) is a TypeError
     trace(it, "sleep", fn, s)
     on_sleep(it, s)
     sf = to_sfloat(s)
